@@ -179,6 +179,21 @@ def check_hz(ctx, case):
             if not failed(back):
                 b0 = ctx.ok("from_hertz", lambda: Note().from_hertz(hz))
                 ctx.check(failed(b0) or _fields(b0) == _fields(back), "hertz/default-standard-pitch", "from_hertz(hz) != from_hertz(hz, 440)")
+    # the same Note object used again: an explicit standard pitch in one call must not leak into later calls
+    if not failed(f):
+        y = Note("D", 2)
+        ctx.ok("from_hertz", y.from_hertz, f * 2.0 ** (cents / 1200.0), std)
+        d1 = ctx.ok("to_hertz", y.to_hertz)
+        e1 = ctx.ok("to_hertz", lambda: Note(i).to_hertz(440))
+        ctx.check(failed(d1) or failed(e1) or d1 == e1, "hertz/reused-object/default-standard-pitch",
+                  lambda: "after from_hertz(.., %r) the same note's to_hertz() gives %r, a fresh Note(%d).to_hertz(440) %r" % (std, d1, i, e1))
+        a = ctx.ok("from_hertz", y.from_hertz, 440.0 * 2.0 ** ((i - 57) / 12.0))
+        ctx.check(failed(a) or int(y) == i, "hertz/reused-object/round-trip", lambda: "reused note reads %r Hz as pitch %r, expected %d" % (
+            440.0 * 2.0 ** ((i - 57) / 12.0), int(y), i))
+        z = Note(i)
+        ctx.ok("to_hertz", z.to_hertz, std)
+        d2 = ctx.ok("to_hertz", z.to_hertz)
+        ctx.check(failed(d2) or failed(e1) or d2 == e1, "hertz/reused-object/default-standard-pitch", "to_hertz(std) changed a later to_hertz()")
     ctx.note_case(cents != 0, ["hz:" + ("flat" if cents < 0 else "sharp" if cents > 0 else "in-tune"),
                                "hz:std440" if std == 440 else "hz:other-std"])
 
